@@ -258,6 +258,9 @@ def nets():
         "amb(source,never)": lambda s: rx.amb(s, rx.never()),
         "amb(never,source)": lambda s: rx.amb(rx.never(), s),
         "with_latest_from(of)": lambda s: s.pipe(ops.with_latest_from(rx.of(9))),
+        # the other source's latest value is None / falsy: still a value (no "nothing yet" sentinel may collide)
+        "with_latest_from(of None)": lambda s: s.pipe(ops.with_latest_from(rx.of(None))),
+        "with_latest_from(of 0, of '')": lambda s: s.pipe(ops.with_latest_from(rx.of(0), rx.of(""))),
         "of.with_latest_from(source)": lambda s: rx.of(1).pipe(ops.with_latest_from(s)),
         "combine_latest(source,of)": lambda s: rx.combine_latest(s, rx.of(9)),
         "combine_latest(of,source)": lambda s: rx.combine_latest(rx.of(9), s),
